@@ -251,3 +251,41 @@ def reachable_tracking_variants(fn, start, avoid=()):
         for s in succs:
             stack.append((s, fe))
     return out
+
+
+def chained_sites(facts, plain, fn, suffix):
+    """Blocks of `fn` at which a call to `suffix` takes place inside a closure handed to Result::and_then / Option::and_then
+    (`tag(..).and_then(|_| constrain(..)).and_then(|eqs| unify(eqs))`): the closure runs whenever the receiver is Ok, and
+    the combinator's result is Err whenever it did not run or failed - provided that result is not dropped: it must be
+    the return value, the receiver of the next combinator of the chain, or the operand of `?`.  Only closures whose
+    every path to their return passes the call count (an `if` inside the closure could skip the phase)."""
+    out = set()
+    for cl in facts.closures_of(plain):
+        if not cl.mir:
+            continue
+        sites = {b for b, t in call_blocks(cl, suffix)}
+        if not sites:
+            continue
+        rets = {b for b, blk in cl.blocks() if blk['term']['t'] == 'return'}
+        if rets & cl.reachable_from(0, avoid=sites | err_blocks(cl)):
+            continue
+        held = set()
+        for b, blk in fn.blocks():
+            for st in blk['stmts']:
+                if st['s'] == 'assign' and st['rv']['r'] == 'aggr' and st['rv'].get('ak') == 'closure' and st['rv'].get('closure') and cl.qname.endswith(st['rv']['closure']) and not st['place']['proj']:
+                    held.add(st['place']['l'])
+        for b, t in fn.calls():
+            info = callee_of(t)
+            if not info or not strip(info['def']).endswith('::and_then'):
+                continue
+            if not any(a.get('l') in held for a in t['args'][1:]):
+                continue
+            d = t['dest']['l']
+            used = d == 0
+            for b2, t2 in fn.calls():
+                i2 = callee_of(t2)
+                if i2 and t2['args'] and t2['args'][0].get('l') == d and (strip(i2['def']).endswith('::and_then') or callee_matches(i2, ['Try::branch'])):
+                    used = True
+            if used:
+                out.add(b)
+    return out
